@@ -183,4 +183,5 @@ mod kani_harness {
 	inst!(c19_block_index_from_blob_32, 32, 36);
 	inst!(c19_block_index_from_blob_33, 33, 36);
 	inst!(c19_block_index_from_blob_66, 66, 70);
+	inst!(c19_block_index_from_blob_99, 99, 103);
 }
